@@ -18,7 +18,7 @@ RULE = ("cases = (maze kind in plain/targeted/solved) x (connection structure fr
         "ndarray / StyledPath with or without quiver, length 0..10, arbitrary cells) x (optionally add_true_path on a plain maze); "
         "every case is plotted for real and compared pixel by pixel / vertex by vertex with the model, to_ascii under all four flag "
         "combinations; non-trivial = at least one connection and one wall strip in the lattice; distinct = distinct (structure, kind, "
-        "endpoints, ul, values, paths); later additions: cell values of exactly -1.0 (the background value), +-1 labels and whole numbers, prior plot state on the same object, int8 paths at unit length >= 14, add_multiple_paths, predicted paths given as lists of Coord arrays (two-cell hops)")
+        "endpoints, ul, values, paths); later additions: cell values of exactly -1.0 (the background value), +-1 labels and whole numbers, prior plot state on the same object, int8 paths at unit length >= 14, add_multiple_paths, predicted paths given as lists of Coord arrays (two-cell hops), a rejected add_node_values call before the plot")
 ASSUMPTIONS = ["matplotlib: imshow stores the array it is given, Line2D/Quiver store the vertex data they are given (read back on every case); "
                "rendering below the array / vertex data is not modelled, only probed through cmap(norm(array)) for wall = black",
                "node values are float64 and finite; -1.0 (also the background value) is a legal cell value and is told apart from the background by position (top row / left column) when pixels are classified for the model comparison",
